@@ -181,6 +181,11 @@ func (m *Variant) Decode(b []byte) (int, error) {
 		if m.arrayDimensionsLength < 0 {
 			return buf.Pos(), StatusBadEncodingLimitsExceeded
 		}
+		// each dimension takes four bytes: do not allocate for more
+		// dimensions than the input can hold
+		if int(m.arrayDimensionsLength) > buf.Len()/4 {
+			return buf.Pos(), io.ErrUnexpectedEOF
+		}
 		m.arrayDimensions = make([]int32, m.arrayDimensionsLength)
 		for i := 0; i < int(m.arrayDimensionsLength); i++ {
 			m.arrayDimensions[i] = buf.ReadInt32()
@@ -200,11 +205,15 @@ func (m *Variant) Decode(b []byte) (int, error) {
 	// validate that the total number of elements
 	// matches the product of the array dimensions
 	if m.arrayDimensionsLength > 0 {
-		count := int32(1)
+		// the product can overflow an int32: compare in int64 and stop early
+		count := int64(1)
 		for i := range m.arrayDimensions {
-			count *= m.arrayDimensions[i]
+			count *= int64(m.arrayDimensions[i])
+			if count > int64(MaxVariantArrayLength) {
+				break
+			}
 		}
-		if count != m.arrayLength {
+		if count != int64(m.arrayLength) {
 			return buf.Pos(), errUnbalancedSlice
 		}
 	}
